@@ -229,6 +229,9 @@ var c05Progs = []string{
 	// one variable (one type object) in two positions of a literal's type
 	"[{f: x, g: x}, {f: x, g: y}]", "[{f: x, g: x}, {f: y, g: x}]", "[{f: x, g: x}, {f: y, g: y}]", "[[k: x, k2: x], [k: x, k2: y]]",
 	"[{f: x, g: x}, {g: x, f: x}][0].g", "{f: [x, x], g: [x]}", "if(c, {f: x, g: x}, {f: x, g: y})", "[{f: xs, g: xs}, {f: [x], g: [y]}]",
+	// keys whose type comes from an element of a container (the element type of
+	// an empty literal is ⊥, which is not a primitive key type)
+	"[x[i]: y]", "[x[i]: y, x[i]: y]", "[m[k]: x]", "[[][i]: x]", "[[:][k]: x]", "[if(c, x[i], x[i]): y]", "[get(x, i, y): c]", "[[x][i]: y]",
 	"type", "let + 1", "[x][0].a", "{f: x}.f", "{f: x}.g", "get(mo, k, o)", "get(o, o)", "o + 1", "o.a", "o[0]", "len(o)", "o == o",
 }
 
